@@ -395,3 +395,21 @@ Lemma ex_render_same_tokens :
   render_stream (v2_body ex2_upper) <> ex2_upper_bytes /\ tokens (render_stream (v2_body ex2_upper)) = tokens ex2_upper_bytes /\
   tokens (render_stream (v1_body ex1_four)) = tokens ex1_four_bytes.
 Proof. split; [vm_compute; discriminate |]. split; vm_compute; reflexivity. Qed.
+
+(* a version-1 sweep that starts at DC: the first frequency is exactly 0 (only negative frequencies are invalid) *)
+Local Open Scope string_scope.
+Definition ex1_dc : v1file :=
+  mkv1file [OFKw OHz; OFKw OS; OFKw ORI; OFR (numd "50")] 1
+    [(numd "0", [numd "0.5"; numd "0.25"]); (numd "1e9", [numd "0.4"; numd "0.3"])] [].
+Definition ex1_dc_bytes : list N := file_of ["# HZ S RI R 50"; "0 0.5 0.25"; "1e9 0.4 0.3"].
+Local Close Scope string_scope.
+Lemma ex1_dc_wf : v1_wf ex1_dc.
+Proof. unfold v1_wf. cbn [ex1_dc g_opts g_ports g_records g_noise]. wf_steps. Qed.
+Lemma ex1_dc_start :
+  v1_wf ex1_dc /\ tokens ex1_dc_bytes = v1_stream ex1_dc /\ load_ts ex1_dc_bytes = Ok (v1_result ex1_dc) /\
+  xsview (o_freqs (v1_result ex1_dc)) = [inl (0 # 1); inl (1000000000 # 1)].
+Proof.
+  split; [exact ex1_dc_wf |]. split; [vm_compute; reflexivity |]. split; [| vm_compute; reflexivity].
+  unfold load_ts. replace (tokens ex1_dc_bytes) with (v1_stream ex1_dc) by (vm_compute; reflexivity).
+  apply v1_load_lemma, ex1_dc_wf.
+Qed.
